@@ -330,6 +330,31 @@ func c03Mutations() []c03mut {
 			b.Nonce.Data[c.Pick("m.nonce", 8)] ^= 0x10
 			return true
 		}},
+		{"fork-overspend", func(c *pbt.C, h *sim.Hist, b *nom.AccountBlock, l *sim.Ledger) bool {
+			// a competing send built on an earlier block of the account (below pooled blocks that raised the
+			// balance), spending what the account holds at its tip: valid only if the stated predecessor
+			// already holds that much
+			if b.BlockType != nom.BlockTypeUserSend {
+				return false
+			}
+			bl := l.Blocks[b.Address]
+			conf := int(l.Confirmed[b.Address])
+			if len(bl) <= conf || len(bl) < 2 {
+				return false
+			}
+			i := conf + c.Int("fo.idx", 0, len(bl)-conf-1) // index of the pooled block to compete with
+			if i == 0 {
+				return false
+			}
+			b.PreviousHash = bl[i-1].Hash
+			b.Height = bl[i-1].Height + 1
+			b.MomentumAcknowledged = bl[len(bl)-1].MomentumAcknowledged
+			z := []types.ZenonTokenStandard{types.ZnnTokenStandard, types.QsrTokenStandard}[c.Pick("fo.token", 2)]
+			b.TokenStandard = z
+			b.Amount = new(big.Int).Set(h.Balance(b.Address, z))
+			b.FusedPlasma = 21000 * uint64(c.Int("fo.plasma", 1, 4))
+			return true
+		}},
 		{"descendant", func(c *pbt.C, h *sim.Hist, b *nom.AccountBlock, l *sim.Ledger) bool {
 			if len(b.DescendantBlocks) > 0 && c.Bool("m.descmutate") {
 				d := b.DescendantBlocks[c.Pick("m.descidx", len(b.DescendantBlocks))]
@@ -534,13 +559,20 @@ func TestC03Contract(t *testing.T) {
 					h.ActCallABI()
 				}
 			}
-			if !h.Produce(c.Weighted("skip", 5, 1)) {
+			lazy := c.Weighted("lazyPillar", 2, 1) == 1
+			if lazy {
+				// the pillar stops right after its momentum; 0-2 more bare momentums follow: the calls stay at
+				// the head of the inboxes while later momentums exist
+				ok := h.A.ProduceBare(0) == nil
+				for i := 0; ok && i < c.Int("lazy.more", 0, 2); i++ {
+					ok = h.A.ProduceBare(c.Weighted("lazy.skip", 4, 1)) == nil
+				}
+				if !ok {
+					break
+				}
+				c.Class("inbox-head-with-later-momentums")
+			} else if !h.Produce(c.Weighted("skip", 5, 1)) {
 				break
-			}
-			if c.Bool("extraMomentum") {
-				// later momentums exist while the receives are pooled only if the producer does not
-				// confirm them: not possible with the real worker; instead the follower is kept one
-				// momentum behind for some candidates (see below)
 			}
 			if _, err := b.Bridge.InsertChain(h.A.Range(b.Height()+1, h.A.Height())); err != nil {
 				c.Failf("C03/follower", "follower refused honest momentums: %v", err)
@@ -558,6 +590,18 @@ func TestC03Contract(t *testing.T) {
 					if blk.BlockType == nom.BlockTypeContractReceive {
 						cands = append(cands, blk)
 						break
+					}
+				}
+			}
+			if lazy {
+				for _, ct := range sim.ContractList {
+					if sb := b.InboxHead(ct); sb != nil {
+						func() {
+							defer func() { _ = recover() }()
+							if ex, err := b.Sup.GenerateAutoReceive(sb); err == nil && ex != nil && ex.Transaction != nil {
+								cands = append(cands, ex.Transaction.Block)
+							}
+						}()
 					}
 				}
 			}
